@@ -72,7 +72,14 @@ func runC06(a *Analyzer, r *Results) {
 						continue
 					}
 					if isInt(from) && isInt(to) {
-						if !(isUnsignedInt(from) && isUnsignedInt(to) && a.P.Sizes.Sizeof(to) >= a.P.Sizes.Sizeof(from)) {
+						narrowing := a.P.Sizes.Sizeof(to) < a.P.Sizes.Sizeof(from)
+						if narrowing && isUnsignedInt(from) && isUnsignedInt(to) && a.P.Sizes.Sizeof(types.Typ[types.Uint]) < 8 {
+							// 32-bit target: uint is narrower than MemberWeight; the property's premise (total fits the
+							// accumulator) then has to be read for 32 bits - recorded as an assumption, not an alarm
+							r.Stats["C06.assumption_uint_is_32_bit"] = 1
+							continue
+						}
+						if !(isUnsignedInt(from) && isUnsignedInt(to) && !narrowing) {
 							okConv = false
 							siteC = a.P.InstrPos(in)
 							whatC = from.String() + " -> " + to.String()
